@@ -124,7 +124,7 @@ GAPS = {
     'C20': ['unit part of total_scaler/total_adder (System._setup_driver_units, add_design_var/add_response normalisation)', '_TotalJacInfo._identify_unit_active_vars (which names get a unit factor)', 'Autoscaler._compute_scaled_bounds slice layout loop', 'OptimizerVector.update_from_model / create_from_model', 'Driver._get_voi_val / _set_design_var unit branches'],
     'C09': ['BroydenSolver._iter_initialize (array dtype conversions outside the subset)', 'ScipyKrylov / PETScKrylov delegate to external iterations', 'ArmijoGoldsteinLS / BoundsEnforceLS inner iteration counts', 'exceptions raised by subsystems inside _single_iteration'],
     'C33': ['DefaultVector._initialize_data beyond two 1-d variables (the loop is unrolled for two), scaling-array slices of sub-vectors', 'Vector.set_var / __getitem__ name lookup and indexer path', 'non-contiguous / distributed vectors'],
-    'C10': ['composition with NewtonSolver._single_iteration (that the line search is called on the Newton step it computed): not under contract; sub-solves inside the Armijo-Goldstein loop (hybrid Newton, _do_subsolve) are switched off in the proof of ArmijoGoldsteinLS._solve',
+    'C10': ['NewtonSolver._single_iteration is proved for solve_subsystems=False (right-hand side = minus the residuals, iterate untouched before the line search / plain update, fd ownership restored); hybrid Newton sub-solves (_gs_iter, _do_subsolve) are switched off there and in the proof of ArmijoGoldsteinLS._solve',
             'floating-point: a result can lie one ulp outside a bound (claim is over reals)',
             '_setup_solvers: array-valued ref / ref0, the loop layout over several variables (start/end bookkeeping is proved per iteration), the stopping criteria of ArmijoGoldsteinLS (any outcome is allowed in the proof)'],
 }
